@@ -216,7 +216,7 @@ pub fn run(ctx: &Ctx) -> Report {
     let mut cases = Vec::new();
     let mut rng = Rng::derive(ctx.seed, 0xC07);
     for spec in panels_for(ctx) {
-        let syms = syms(spec);
+        let syms = syms_shapes(spec);
         // exhaustive length 2 also in the quick tier except on the largest panels; thorough adds length 3 on the small ones
         let bigp = spec.w * spec.h > 300 * 400;
         let smallp = spec.w * spec.h <= 200 * 200;
@@ -245,7 +245,7 @@ pub fn run(ctx: &Ctx) -> Report {
     let variant = ctx.variant.clone();
     par_run(&cases, ctx.threads, |_, c, rep| {
         let spec = c.spec;
-        let syms = syms(spec);
+        let syms = syms_shapes(spec);
         rep.eval(spec.name);
         let mut ops = flatten(&syms, &c.h);
         ops.push(Op::arg(K::SetBg, c.color));
